@@ -3,7 +3,8 @@
   src/subdevice_group/mod.rs) and the per-cycle timing arithmetic at the end of `tx_rx_dc`.
 
   Hand translation, line by line. All arithmetic is on `u64` with the crate's *unchecked*
-  operators, so it goes through helpers parameterised by `Ec.Mode` (`checked` = overflow-checks on:
+  operators (except the first-pulse addition, which is a `checked_add` since fix <COMMIT>), so it goes
+  through helpers parameterised by `Ec.Mode` (`checked` = overflow-checks on:
   overflow panics; `wrapping` = release: two's-complement wrap). Division and remainder by zero
   panic in both modes. `Duration::as_nanos()` is a `u128`: the three `DcConfiguration` durations and
   `sync1_period` are therefore unbounded-looking naturals here (the harness feeds values up to and
@@ -103,23 +104,19 @@ def flagsSync01 : Nat := flagsOr Gen.Dc.flagTermsSync01
 /-- `SYNC0_ACTIVATE | CYCLIC_OP_ENABLE` -/
 def flagsSync0 : Nat := flagsOr Gen.Dc.flagTermsSync0
 
-/-- `(system_time + first_pulse_delay) / sync0_period * sync0_period` -/
-def startTime (m : Mode) (sys delay period : Nat) : Outcome Err Nat :=
-  match (addU64 m sys delay : Outcome Err Nat) with
-  | .ok s =>
-    match (divU64 s period : Outcome Err Nat) with
-    | .ok q => mulU64 m q period
-    | .err e => .err e
-    | .panic w => .panic w
+/-- `first_pulse_time / sync0_period * sync0_period` -/
+def startTime (m : Mode) (first period : Nat) : Outcome Err Nat :=
+  match (divU64 first period : Outcome Err Nat) with
+  | .ok q => mulU64 m q period
   | .err e => .err e
   | .panic w => .panic w
 
 /-- Body of `for subdevice in dc_devices { .. }` for one device: the writes performed (also when
     the body ends early) and how the body ended. -/
-def devBody (m : Mode) (sys delay period : Nat) (d : Dev) : List Write × Outcome Err Unit :=
+def devBody (m : Mode) (first period : Nat) (d : Dev) : List Write × Outcome Err Unit :=
   -- "Disable cyclic op, ignore WKC"
   let w0 : List Write := [⟨d.addr, Gen.Dc.REG_DcSyncActive, [0]⟩]
-  match startTime m sys delay period with
+  match startTime m first period with
   | .panic w => (w0, .panic w)
   | .err e => (w0, .err e)
   | .ok st =>
@@ -135,17 +132,17 @@ def devBody (m : Mode) (sys delay period : Nat) (d : Dev) : List Write × Outcom
     | _ => (w1 ++ [⟨d.addr, Gen.Dc.REG_DcSyncActive, [flagsSync0]⟩], .ok ())
 
 /-- The `for` loop over the filtered iterator. -/
-def devLoop (m : Mode) (sys delay period : Nat) : List Dev → List Write × Outcome Err Unit
+def devLoop (m : Mode) (first period : Nat) : List Dev → List Write × Outcome Err Unit
   | [] => ([], .ok ())
   | d :: ds =>
     if wants d then
-      match devBody m sys delay period d with
+      match devBody m first period d with
       | (w, .ok ()) =>
-        let r := devLoop m sys delay period ds
+        let r := devLoop m first period ds
         (w ++ r.1, r.2)
       | (w, .err e) => (w, .err e)
       | (w, .panic s) => (w, .panic s)
-    else devLoop m sys delay period ds
+    else devLoop m first period ds
 
 /-- `SubDeviceGroup::configure_dc_sync`. `refAddr` = `dc_reference_configured_address` (0 = none),
     `sys` = the `DcSystemTime` value read from the reference, the three durations in nanoseconds.
@@ -158,8 +155,10 @@ def configureDcSync (m : Mode) (refAddr sys startDelay period shift : Nat) (devs
   else if period > U32_MAX then ([], .err .intConv)
   -- `u64::from(u32::try_from(start_delay.as_nanos())?)`
   else if startDelay > U32_MAX then ([], .err .intConv)
+  -- `system_time.checked_add(first_pulse_delay).ok_or(Error::IntegerTypeConversion)?`
+  else if ¬ (sys + startDelay < U64) then ([], .err .intConv)
   else
-    match devLoop m sys startDelay period devs with
+    match devLoop m (sys + startDelay) period devs with
     | (w, .ok ()) => (w, .ok ⟨period, shift % U64, refAddr⟩)   -- `sync0_shift.as_nanos() as u64`
     | (w, .err e) => (w, .err e)
     | (w, .panic s) => (w, .panic s)
